@@ -181,6 +181,11 @@ class Check:
                     if len(picked) >= n:
                         break
         if not picked:
+            if any(v["v"].startswith("violation") for v in verdicts):
+                # nothing was accepted because the judge rejected the observations: the violations are what this run
+                # has to report (the self-test needs an accepted observation to start from)
+                self.coverage.setdefault("binding_selftest", []).append({"judge": module, "skipped": "no accepted observation - every one was rejected"})
+                return
             raise tlc.MachineryError(f"binding self-test of {module}: no accepted observation could be corrupted")
         vs = self.judge(module, picked, nshards=1, env=env)
         missed = [v["id"] for v in vs if v["v"] in ("ok", "unspec")]
